@@ -113,6 +113,60 @@ rt_wbin!(rt_wbin_f64, f64);
 cmp_wbin!(cmp_wbin_f32, f32, want_f32);
 cmp_wbin!(cmp_wbin_f64, f64, want_f64);
 
+/// value m * 2^p (m odd or 0) rounded to `max` significant digits of radix 2^k: half-to-even under Round, toward zero
+/// under Truncate; returned normalised (odd mantissa, exponent)
+pub fn expect_round(m: u128, p: i64, k: i64, max: i64, truncate: bool) -> (u128, i64) {
+    if m == 0 { return (0, 0); }
+    let bl = 128 - m.leading_zeros() as i64;
+    let t = p + bl - 1;                                   // position of the leading bit
+    let b0 = t.div_euclid(k) * k;                          // lowest bit position of the leading digit
+    let low = b0 - (max - 1) * k;                          // lowest bit position that is kept
+    if low <= p { return (m, p); }                         // nothing to drop
+    let sh = (low - p) as u32;
+    if sh >= 127 { return (m, p); }                        // oracle limit (not reached by f32/f64)
+    let q = m >> sh;
+    let rem = m & ((1u128 << sh) - 1);
+    let half = 1u128 << (sh - 1);
+    let up = !truncate && (rem > half || (rem == half && q & 1 == 1));
+    let mut r = q + up as u128;
+    let mut e = low;
+    if r == 0 { return (0, 0); }
+    let tz = r.trailing_zeros(); r >>= tz; e += tz as i64;
+    (r, e)
+}
+
+/// number of significant digits of the written mantissa (first non-zero digit .. last non-zero digit)
+pub fn sig_digits(out: &[u8]) -> usize {
+    let mut first = usize::MAX; let mut last = 0usize; let mut idx = 0usize;
+    let mut i = 0;
+    if i < out.len() && out[i] == b'-' { i += 1; }
+    while i < out.len() && out[i] != EXPC {
+        if out[i] != b'.' { if out[i] != b'0' { if first == usize::MAX { first = idx; } last = idx; } idx += 1; }
+        i += 1;
+    }
+    if first == usize::MAX { 0 } else { last - first + 1 }
+}
+
+/// C14 on the power-of-two writers: with max_significant_digits = max the output has at most max significant digits and
+/// denotes exactly the float rounded to max digits (half-to-even / truncated)
+pub fn cmp_wbin_maxdigits_f32<const F: u128>(v: f32, radix: u32, base: u32, eradix: u32, max: usize, truncate: bool) -> Result<(), &'static str> {
+    use lexical_write_float::RoundMode;
+    let b = Options::builder().exponent(EXPC).max_significant_digits(core::num::NonZeroUsize::new(max))
+        .round_mode(if truncate { RoundMode::Truncate } else { RoundMode::Round });
+    if !b.is_valid() { return Err("options are valid"); }
+    let o = b.build_unchecked();
+    let mut buf = [0u8; 320];
+    let n = v.to_lexical_with_options::<F>(&mut buf, &o).len();
+    let got = eval_pow2(&buf[..n], radix, base, eradix)?;
+    let w = want_f32(v);
+    let k = match radix { 2 => 1, 4 => 2, 8 => 3, 16 => 4, 32 => 5, _ => return Err("oracle: power-of-two radix") };
+    let want = expect_round(w.1, w.2, k, max as i64, truncate);
+    if got.0 != w.0 { return Err("sign is written"); }
+    if sig_digits(&buf[..n]) > max { return Err("at most max_significant_digits significant digits are written"); }
+    if got.1 != want.0 || (want.0 != 0 && got.2 != want.1) { return Err("the output denotes the float rounded to max_significant_digits digits (half-to-even / truncated)"); }
+    Ok(())
+}
+
 macro_rules! wbin32 {
     ($radix:expr, $base:expr, $eradix:expr, $F:expr, $notation:expr) => {{
         const F: u128 = $F;
@@ -149,6 +203,51 @@ macro_rules! rt32 {
 }
 
 crate::harnesses! {
+    /// binary::fast_log2 on its whole domain {2, 4, 8, 16, 32} (restated as an assumed contract in the Verus unit wf_bintrunc).
+    /// @prop C14 C06
+    /// @feat pow2 radix
+    /// @fn lexical-write-float::binary::fast_log2
+    /// @timeout 600
+    fn binary_fast_log2_all() {
+        let k: u32 = any();
+        assume(k >= 1 && k <= 5);
+        vcheck!(lexical_write_float::binary::fast_log2(1u32 << k) == k as i32, "fast_log2(2^k) == k");
+    }
+
+    /// radix 2 with max_significant_digits 1..=3, both round modes, every finite f32.
+    /// @prop C14
+    /// @mem 10
+    /// @feat pow2 radix
+    /// @fn lexical-write-float::binary::truncate_and_round
+    /// @fn lexical-write-float::binary::write_float
+    /// @timeout 2400
+    #[cfg_attr(kani, kani::unwind(40))]
+    fn wbin_maxdigits_r2() {
+        const F: u128 = crate::radix_format(2);
+        let bits: u32 = any(); let v = f32::from_bits(bits); assume(v.is_finite());
+        let max: usize = any(); assume(max >= 1 && max <= 3);
+        let truncate: bool = any();
+        let r = cmp_wbin_maxdigits_f32::<F>(v, 2, 2, 2, max, truncate);
+        vcheck!(r.is_ok(), "radix 2: output == float rounded to max_significant_digits");
+    }
+
+    /// radix 16 with max_significant_digits 1..=2, both round modes, every finite f32.
+    /// @prop C14
+    /// @mem 10
+    /// @feat pow2 radix
+    /// @fn lexical-write-float::binary::truncate_and_round
+    /// @fn lexical-write-float::binary::{write_float_scientific, write_float_positive_exponent, write_float_negative_exponent} (digit alignment)
+    /// @timeout 2400
+    #[cfg_attr(kani, kani::unwind(16))]
+    fn wbin_maxdigits_r16() {
+        const F: u128 = crate::radix_format(16);
+        let bits: u32 = any(); let v = f32::from_bits(bits); assume(v.is_finite());
+        let max: usize = any(); assume(max >= 1 && max <= 2);
+        let truncate: bool = any();
+        let r = cmp_wbin_maxdigits_f32::<F>(v, 16, 16, 16, max, truncate);
+        vcheck!(r.is_ok(), "radix 16: output == float rounded to max_significant_digits");
+    }
+
     /// write -> parse round trip, every finite f32, hex float (radix 16, exponent base 2, decimal exponent digits).
     /// @prop C06 C08 C05
     /// @tier thorough
